@@ -28,6 +28,10 @@ pub enum ROp {
     Expr(u8),
     /// a program that defines a user function called RND (the built-in must stay the built-in)
     ShadowDef,
+    /// a program that draws, then waits at `INPUT C(INT(RND(1) * 3))` (a request whose target draws), then draws
+    /// again; the host re-seeds while the program is running (`seed_running`) and/or while it waits for the
+    /// reply (`seed_at_input`), and answers `bad` unsuitable replies before the suitable one
+    Suspended { bad: u32, seed_running: Option<u64>, seed_at_input: Option<u64> },
 }
 
 #[derive(Clone, Debug, Serialize, Deserialize)]
@@ -245,6 +249,171 @@ fn check(c: &Case, ctx: &mut Ctx) -> Option<Violation> {
                 }
                 ctx.count("fault.user_function_named_RND_defined");
             }
+            ROp::Suspended { bad, seed_running, seed_at_input } => {
+                // "two interpreters given the same seed produce the same sequence" has no clause about *when* the
+                // seed is given: a seed given between two calls of a running or waiting program counts like any other.
+                // And nothing but seeding moves the generator anywhere except forward: across every host call the
+                // state advances along the LCG orbit by the number of RND calls made (here 0, 1 or 2), never back.
+                let lines = ["10 PRINT RND(1)", "20 INPUT C(INT(RND(1) * 3))", "30 PRINT RND(1)", "40 PRINT RND(1)"];
+                for l in &lines {
+                    s.apply(&Op::Line(l.to_string()))?;
+                    if let Err(p) = w.start_evaluating(l) {
+                        return v("web-trap", format!("panic@{p}"), format!("web line trapped: {p}"));
+                    }
+                }
+                // forward-only: real state must be model state advanced by 0..=2 steps; the model follows
+                let follow = |m: &mut Lcg, real: u64| -> Option<u32> {
+                    let mut x = m.x;
+                    for j in 0..=2u32 {
+                        if x == real {
+                            if j > 0 {
+                                m.x = x;
+                                m.produced = true;
+                            }
+                            return Some(j);
+                        }
+                        x = ((1664525u128 * x as u128 + 1013904223u128) % M) as u64;
+                    }
+                    None
+                };
+                let mut got: Vec<String> = vec![];
+                let mut seeded_running = seed_running.is_none();
+                let mut seeded_at_input = seed_at_input.is_none();
+                let mut bad_left = *bad;
+                let mut call = s.apply(&Op::Line("RUN".into()))?;
+                let mut n = 0;
+                loop {
+                    ctx.calls(1);
+                    n += 1;
+                    if let Some(p) = call.panicked() {
+                        return v("panic", format!("panic@{p}"), format!("op {i} program with a drawing INPUT target unwound: {p}"));
+                    }
+                    if let Some(e) = call.err() {
+                        return v("rnd-failed", e.kind.clone(), format!("op {i} program with a drawing INPUT target failed: {}", e.text));
+                    }
+                    let prints: Vec<String> = call.recs.iter().filter_map(|r| if let Rec::Print(s) = r { Some(s.clone()) } else { None }).collect();
+                    for pr in &prints {
+                        // a printed draw is exactly the next element
+                        let want = format!("{}\n", m.advance());
+                        if *pr != want {
+                            return v("sequence-differs", "suspended program".into(), format!("op {i}: draw {} of the program printed {:?}, the LCG gives {:?} (state {})", got.len(), pr, want, m.x));
+                        }
+                        got.push(pr.clone());
+                    }
+                    let real = s.probe(false).rng_state;
+                    if prints.is_empty() {
+                        if follow(&mut m, real).is_none() {
+                            return v(
+                                "state-differs",
+                                "generator moved off the forward orbit".into(),
+                                format!("op {i}: after host call {n} of the program (state {:?}, {} unsuitable replies left) the generator is at {real}; the model is at {} and only 0..2 forward steps are possible", s.state(), bad_left, m.x),
+                            );
+                        }
+                    } else if real != m.x {
+                        return v("state-differs", "after a printed draw".into(), format!("op {i}: generator at {real}, model at {}", m.x));
+                    }
+                    match s.state() {
+                        St::Running => {
+                            if !seeded_running && got.len() == 1 {
+                                seeded_running = true;
+                                let sd = seed_running.unwrap();
+                                s.apply(&Op::Seed(sd))?;
+                                m = Lcg { x: (sd as u128 % M) as u64, produced: false };
+                                ctx.count("fault.seed_while_running");
+                                let real = s.probe(false).rng_state;
+                                if real != m.x {
+                                    return v("state-differs", "seed given while running".into(), format!("op {i}: randomize({sd}) between two calls of a running program left the generator at {real}, the model says {}", m.x));
+                                }
+                            }
+                            call = s.apply(&Op::Tick)?;
+                        }
+                        St::Awaiting => {
+                            if !seeded_at_input {
+                                seeded_at_input = true;
+                                let sd = seed_at_input.unwrap();
+                                s.apply(&Op::Seed(sd))?;
+                                m = Lcg { x: (sd as u128 % M) as u64, produced: false };
+                                ctx.count("fault.seed_while_awaiting_input");
+                                let real = s.probe(false).rng_state;
+                                if real != m.x {
+                                    return v("state-differs", "seed given while awaiting input".into(), format!("op {i}: randomize({sd}) while the program waits for a reply left the generator at {real}, the model says {}", m.x));
+                                }
+                            }
+                            if bad_left > 0 {
+                                bad_left -= 1;
+                                ctx.count("fault.unsuitable_reply_to_drawing_target");
+                                call = s.apply(&Op::Reply("x".into()))?;
+                            } else {
+                                call = s.apply(&Op::Reply("5".into()))?;
+                            }
+                        }
+                        _ => break,
+                    }
+                    if n > 60 {
+                        break;
+                    }
+                }
+                if got.len() != 3 {
+                    return v("rnd-failed", "suspended program".into(), format!("op {i}: the program printed {} of its 3 draws", got.len()));
+                }
+                // the other front end, driven the same way
+                let trap = |what: &str, p: String| Violation::new("C18/web-trap", format!("panic@{p}"), format!("op {i}: {what} trapped: {p}"));
+                let mut wgot: Vec<String> = vec![];
+                let mut wsr = seed_running.is_none();
+                let mut wsi = seed_at_input.is_none();
+                let mut wbad = *bad;
+                if let Err(p) = w.start_evaluating("RUN") {
+                    return Some(trap("RUN", p));
+                }
+                for _ in 0..60 {
+                    match w.take_latest_output() {
+                        Ok(os) => wgot.extend(os.into_iter().filter(|o| o.kind == "Print").map(|o| o.text)),
+                        Err(p) => return Some(trap("take_latest_output", p)),
+                    }
+                    let st = match w.state() {
+                        Ok(x) => x,
+                        Err(p) => return Some(trap("get_state", p)),
+                    };
+                    ctx.calls(1);
+                    let r = match st {
+                        WSt::Running => {
+                            if !wsr && wgot.len() == 1 {
+                                wsr = true;
+                                if let Err(p) = w.randomize(seed_running.unwrap()) {
+                                    return Some(trap("randomize", p));
+                                }
+                            }
+                            w.continue_evaluating()
+                        }
+                        WSt::Awaiting => {
+                            if !wsi {
+                                wsi = true;
+                                if let Err(p) = w.randomize(seed_at_input.unwrap()) {
+                                    return Some(trap("randomize", p));
+                                }
+                            }
+                            if wbad > 0 {
+                                wbad -= 1;
+                                w.provide_input("x")
+                            } else {
+                                w.provide_input("5")
+                            }
+                        }
+                        _ => break,
+                    };
+                    if let Err(p) = r {
+                        return Some(trap("evaluating call", p));
+                    }
+                }
+                if wgot != got {
+                    return v("front-ends-differ", "suspended program".into(), format!("op {i}: core {:?} web {:?}", got, wgot));
+                }
+                for l in ["10", "20", "30", "40"] {
+                    s.apply(&Op::Line(l.to_string()))?;
+                    let _ = w.start_evaluating(l);
+                }
+                ctx.count("reach.suspended_program_draws");
+            }
             ROp::Prog { draws, zero_every, brk } => {
                 // a program that prints `draws` numbers; RUN and breaks must not disturb the sequence
                 let mut lines = vec![];
@@ -418,13 +587,13 @@ impl Prop for C18 {
     fn meta() -> Meta {
         Meta {
             level: "exploration",
-            rule: "Each run: randomize(s) with s from the boundary dictionary (0, 2^33-1, 2^33, 2^33+1, 2^40, 2^43, 2^44-1, 2^44, 2^44+1, 2^53, 2^63, 2^64-2, 2^64-1, and the two seeds that reach the largest states) or uniform in [0,2^33), [2^33,2^44), [2^44,2^64); then 1-200 draws `PRINT RND(a)` with a positive / zero / negative in random order (numerals, and computed arguments: sums and quotients, INT/ABS results, and arithmetic that overflowed to +infinity (positive: a draw) or -infinity (negative: refused) or underflowed to 0), as immediate lines and inside stored programs run with break+CONT, with expressions that call RND twice (nested or side by side) and a stored DEF of a user function named RND, interleaved with re-seeding and with host activity that must not touch the generator (RUN of other programs, LIST, STOP/CONT, failing lines, a broken endless loop); every line is also given to the Web adapter (real abasic-web code, natively compiled) seeded identically. Oracle: LCG model in u128 (x <- (1664525 x + 1013904223) mod 2^33), printed text == Display(x / 2^33), value in [0,1), RND(0) repeats without advancing (right after seeding only the range is required), negative argument -> UNIMPLEMENTED without advancing, generator state (probe) == model state after every op, both front ends print the same. distinct_nontrivial = distinct op-sequence hashes among runs with >= 3 draws; distinct_states = distinct generator states visited.",
+            rule: "Each run: randomize(s) with s from the boundary dictionary (0, 2^33-1, 2^33, 2^33+1, 2^40, 2^43, 2^44-1, 2^44, 2^44+1, 2^53, 2^63, 2^64-2, 2^64-1, and the two seeds that reach the largest states) or uniform in [0,2^33), [2^33,2^44), [2^44,2^64); then 1-200 draws `PRINT RND(a)` with a positive / zero / negative in random order (numerals, and computed arguments: sums and quotients, INT/ABS results, and arithmetic that overflowed to +infinity (positive: a draw) or -infinity (negative: refused) or underflowed to 0), as immediate lines and inside stored programs run with break+CONT, with expressions that call RND twice (nested or side by side) and a stored DEF of a user function named RND, and in a program that waits at `INPUT C(INT(RND(1) * 3))` (a request whose target draws) answered with 0-3 unsuitable replies before the suitable one while the host re-seeds between two calls of the running program and/or while it waits (the state may only move forward along the orbit by 0..2 steps per host call, a seed given at any moment counts, every printed draw is exactly the next element), interleaved with re-seeding and with host activity that must not touch the generator (RUN of other programs, LIST, STOP/CONT, failing lines, a broken endless loop); every line is also given to the Web adapter (real abasic-web code, natively compiled) seeded identically. Oracle: LCG model in u128 (x <- (1664525 x + 1013904223) mod 2^33), printed text == Display(x / 2^33), value in [0,1), RND(0) repeats without advancing (right after seeding only the range is required), negative argument -> UNIMPLEMENTED without advancing, generator state (probe) == model state after every op, both front ends print the same. distinct_nontrivial = distinct op-sequence hashes among runs with >= 3 draws; distinct_states = distinct generator states visited.",
             real: &["abasic-core Rng + RND builtin", "abasic-web JsInterpreter (native rlib)"],
             stub: &["the clocks that produce seeds (CLI SystemTime, Web Date.now)", "u128 LCG model"],
             assumptions: &[
                 "NOT covered: the statement's exhaustive sweep of all 2^33 generator states (that one of them maps to 1.0 can only be found by enumeration, which is a different technique); the evidence reports the number of distinct states actually visited",
             ],
-            reach: &["fault.seed_jump>=2^44", "fault.seed_jump>=2^33", "reach.negative_argument", "reach.zero_argument", "reach.program_draws", "fault.noise_between_draws"],
+            reach: &["fault.seed_jump>=2^44", "fault.seed_jump>=2^33", "reach.negative_argument", "reach.zero_argument", "reach.program_draws", "fault.noise_between_draws", "reach.suspended_program_draws", "fault.seed_while_running", "fault.seed_while_awaiting_input", "fault.unsuitable_reply_to_drawing_target"],
         }
     }
 
@@ -461,6 +630,11 @@ impl Prop for C18 {
                 13..=14 => ROp::Rnd(rng.pick(&["-1", "-0.5", "-100", "-0.0000000000000000001"]).to_string()),
                 15 if rng.chance(1, 2) => ROp::Expr(rng.below(3) as u8),
                 15 if rng.chance(1, 4) => ROp::ShadowDef,
+                16 if rng.chance(1, 2) => ROp::Suspended {
+                    bad: rng.below(4) as u32,
+                    seed_running: if rng.chance(1, 3) { Some(seed(rng)) } else { None },
+                    seed_at_input: if rng.chance(1, 3) { Some(seed(rng)) } else { None },
+                },
                 15 => ROp::Seed(seed(rng)),
                 16..=17 => ROp::Prog {
                     draws: 1 + rng.below(8) as u32,
